@@ -170,11 +170,26 @@ pub fn run(sc: &Value) -> Vec<String> {
             b = b.with_file(mf);
         }
         let form = b.build().map_err(|e| err_kind(&e))?;
-        let rp = attohttpc::post("http://mp.test/upload")
-            .proxy_settings(attohttpc::ProxySettings::builder().build())
-            .body(form)
-            .send()
-            .map_err(|e| err_kind(&e))?;
+        // a Content-Type that is already there (session default, set before or after the body call) must not win
+        // over the form's own type: the boundary travels in it
+        let stale = *["application/json", "multipart/form-data", "multipart/form-data; boundary=stale"].get(gu(sc, "ctval") % 3).unwrap();
+        let rb = match gs(sc, "ctmode") {
+            "session" => {
+                let mut s = attohttpc::Session::new();
+                s.header(attohttpc::header::CONTENT_TYPE, stale);
+                s.post("http://mp.test/upload")
+            }
+            _ => attohttpc::post("http://mp.test/upload"),
+        };
+        let mut rb = rb.proxy_settings(attohttpc::ProxySettings::builder().build());
+        if gs(sc, "ctmode") == "before" {
+            rb = rb.header(attohttpc::header::CONTENT_TYPE, stale);
+        }
+        let mut rb = rb.body(form);
+        if gs(sc, "ctmode") == "after" {
+            rb = rb.header(attohttpc::header::CONTENT_TYPE, stale);
+        }
+        let rp = rb.send().map_err(|e| err_kind(&e))?;
         Ok(rp.status().as_u16())
     }));
     uninstall_dialer();
@@ -242,7 +257,7 @@ pub fn generate(seed: u64, tier: &str) -> Vec<Value> {
     let mimes = ["text/plain", "application/octet-stream", "image/png", "text/html; charset=utf-8", "application/vnd.api+json"];
     let classes = ["bytes", "crlf", "lookalike", "bytes", "hint"];
     let mut push = |out: &mut Vec<Value>, texts: Vec<Value>, files: Vec<Value>| {
-        out.push(json!({"id":format!("mp-{}", id),"texts":texts,"files":files}));
+        out.push(json!({"id":format!("mp-{}", id),"texts":texts,"files":files,"ctmode":(["none", "session", "before", "after", "none"][id % 5]),"ctval":(id / 5)}));
         id += 1;
     };
     // the empty form, and all small shapes
